@@ -31,9 +31,17 @@ def translate():
 #                 native argument list builder)
 
 class Atom:
-    def __init__(self, name, text, typ, perm, kind, site, layers, nargs, native_args):
+    def __init__(self, name, text, typ, perm, kind, site, layers, nargs, native_args, lenient=None, effect_error=None):
         self.name, self.text, self.typ, self.perm, self.kind = name, text, typ, perm, kind
         self.site, self.layers, self.nargs, self.native_args = site, layers, nargs, native_args
+        # when may a call with the permission off legitimately NOT end in the violation?
+        #   "none": never - the builtin checks first (the table has `check` before every `arg`): whatever the argument
+        #           (edge value, invalid value, error value), the outcome is the violation
+        #   "bad" : only if an argument is an error value (a user-level call / an `arg` step before the check propagates it)
+        #   "both": also for edge / invalid argument values (the code validates an argument before the check)
+        self.lenient = lenient if lenient is not None else ("none" if layers == 0 else "bad")
+        # text of an error value that only the effect itself can have produced
+        self.effect_error = effect_error
 
 
 G, D, C, DI, S, RX = ("builtin/generic.rs", "builtin/datetime.rs", "builtin/cont_distributions.rs",
@@ -48,9 +56,9 @@ ATOMS = {a.name: a for a in [
     Atom("unix_now", "__std_unix_now()", "float", "now", 1, (D, "__std_unix_now"), 0, 0, []),
     Atom("random", "random()", "float", "random", 2, (C, "sample"), 2, 0, [None, None]),
     Atom("cont_random", "normal_distribution(0.0, 1.0).random()", "float", "random", 2, (C, "sample"), 1, 0, [None, None]),
-    Atom("cont_sample", "standard_uniform_distribution().sample({0})", "Sequence<float>", "random", 2, (C, "sample"), 0, 1, [None, 0]),
+    Atom("cont_sample", "standard_uniform_distribution().sample({0})", "Sequence<float>", "random", 2, (C, "sample"), 0, 1, [None, 0], lenient="both"),
     Atom("disc_random", "binomial_distribution(3, 0.5).random()", "int", "random", 2, (DI, "sample"), 1, 0, [None, None]),
-    Atom("disc_sample", "uniform_distribution(1, 6).sample({0})", "Sequence<int>", "random", 2, (DI, "sample"), 0, 1, [None, 0]),
+    Atom("disc_sample", "uniform_distribution(1, 6).sample({0})", "Sequence<int>", "random", 2, (DI, "sample"), 0, 1, [None, 0], lenient="both"),
     Atom("seq_sample", "[1, 2, 3, 4].sample({0})", "Sequence<int>", "random", 2, (S, "sample"), 0, 1, [None, 0]),
     # long sequences take the index-picking branch of XSequence::sample (len > 6 + 4^(bits(3k)/2)), short ones the pool branch
     Atom("seq_sample_pick3", "range(30).sample(3)", "Sequence<int>", "random", 2, (S, "sample"), 0, 0, [None, None]),
@@ -61,15 +69,53 @@ ATOMS = {a.name: a for a in [
     Atom("sample_counts", "sample([1, 2, 3], 2, [1, 1, 1])", "Sequence<int>", "random", 2, (S, "sample"), 3, 0, [None, None]),
     Atom("random_choices", "[1, 2, 3].random_choices(2)", "Sequence<int>", "random", 2, (DI, "sample"), 1, 0, [None, None]),
     Atom("random_choices_w", "random_choices([1, 2, 3], 2, [1.0, 2.0, 1.0])", "Sequence<int>", "random", 2, (DI, "sample"), 2, 0, [None, None]),
-    Atom("regex", "regex({0})", "Regex", "regex", None, (RX, "regex"), 0, 1, [0]),
+    Atom("regex", "regex({0})", "Regex", "regex", None, (RX, "regex"), 0, 1, [0], effect_error="error compiling regex"),
     Atom("regex_match", "regex('a+').match('aaa')", "Optional<Match>", "regex", None, (RX, "regex"), 1, 0, [None]),
     Atom("sleep", "sleep(seconds(0.0))", "()", "sleep", None, (G, "__std_sleep"), 1, 0, [None, None]),
     Atom("sleep_value", "sleep(seconds(0.0), {0})", "int", "sleep", None, (G, "__std_sleep"), 1, 1, [None, 0]),
+    # atoms that exist for their edge / invalid arguments (EDGE below)
+    Atom("sleep_d", "sleep(seconds({0}))", "()", "sleep", None, (G, "__std_sleep"), 1, 1, [0, None]),
+    Atom("seq_sample_empty", "range(0).sample({0})", "Sequence<int>", "random", 2, (S, "sample"), 0, 1, [None, 0]),
+    Atom("shuffle_empty", "range(0).shuffle()", "Sequence<int>", "random", 2, (S, "sample"), 1, 0, [None, None]),
+    Atom("random_choices_n", "[1, 2, 3].random_choices({0})", "Sequence<int>", "random", 2, (DI, "sample"), 1, 1, [None, None], lenient="both"),
+    Atom("random_choices_empty", "range(0).random_choices({0})", "Sequence<int>", "random", 2, (DI, "sample"), 1, 1, [None, None], lenient="both"),
+    Atom("sample_counts_k", "sample([1, 2, 3], {0}, [1, 0, 1])", "Sequence<int>", "random", 2, (S, "sample"), 3, 1, [None, None], lenient="both"),
+    Atom("cont_param", "normal_distribution(0.0, {0}).random()", "float", "random", 2, (C, "sample"), 1, 1, [None, None], lenient="both"),
+    Atom("disc_param", "uniform_distribution({0}, 6).random()", "int", "random", 2, (DI, "sample"), 1, 1, [None, None], lenient="both"),
+    Atom("now_scaled", "(__std_unix_now() * {0})", "float", "now", 1, (D, "__std_unix_now"), 0, 1, []),
+    Atom("now_plus", "(now() + seconds({0}))", "Datetime", "now", 1, (D, "__std_unix_now"), 1, 1, []),
 ]}
+# atoms whose receiver is itself the edge case: only used with the arguments of EDGE
+EDGE_ONLY = {"random_choices_empty"}
+# edge / invalid (but not error-valued) arguments that make the builtin take an early-return or unusual path:
+# atom -> [(argument text, static type of the call if it differs from the atom's)]
+EDGE = {
+    "regex": [("'('", None), ("'['", None), ("'a{2,1}'", None), ("'\\\\'", None), ("'(?P<'", None), ("'a' * 10000", None),
+              ("''", None), ("'(a|b)*c'", None)],
+    "display": [("2**4000", None), ("'x' * 10000", "str"), ("[1, 2, 3]", "Sequence<int>"), ("1.5", "float"), ("(1, 'a')", "(int, str)")],
+    "display2": [("-(2**4000)", None), ("''", "str")],
+    "debug": [("2**4000", None), ("'x' * 10000", "str"), ("[[1], [2, 3]]", "Sequence<Sequence<int>>")],
+    "debug2": [("range(3)", "Sequence<int>")],
+    "sleep_d": [("0.0", None), ("-1.0", None), ("-0.0", None), ("1e-9", None), ("(-1e308)", None)],
+    "sleep_value": [("2**200", None)],
+    "seq_sample": [("0", None), ("5", None), ("-1", None), ("4", None), ("2**70", None)],
+    "seq_sample_empty": [("0", None), ("1", None)],
+    "cont_sample": [("0", None), ("-1", None), ("2**70", None)],
+    "disc_sample": [("0", None), ("-1", None), ("2**70", None)],
+    "random_choices_n": [("0", None), ("-1", None), ("2**70", None)],
+    "random_choices_empty": [("2", None), ("0", None)],
+    "sample_counts_k": [("0", None), ("3", None), ("-1", None)],
+    "cont_param": [("0.0", None), ("-1.0", None), ("1e308", None), ("5e-324", None)],
+    "disc_param": [("6", None), ("7", None), ("-(2**62)", None)],
+    "now_scaled": [("1e308", None), ("0.0", None), ("-1.0", None)],
+    "now_plus": [("1e308", None), ("-1e18", None)],
+}
 ARG_LIT = {"display": "7", "display2": "8", "debug": "9", "debug2": "10", "cont_sample": "2", "disc_sample": "2",
-           "seq_sample": "2", "regex": "'a+b'", "sleep_value": "11"}
+           "seq_sample": "2", "regex": "'a+b'", "sleep_value": "11", "sleep_d": "0.0", "seq_sample_empty": "0",
+           "random_choices_n": "2", "sample_counts_k": "2", "cont_param": "1.0", "disc_param": "1", "now_scaled": "1.0",
+           "now_plus": "1.0", "random_choices_empty": "2"}
 # atoms whose shape argument may be an error value (the native closure `xraise!`s it)
-BAD_OK = {"debug", "cont_sample", "disc_sample", "seq_sample", "regex"}
+BAD_OK = {"debug", "debug2", "display", "display2", "cont_sample", "disc_sample", "seq_sample", "seq_sample_empty", "regex"}
 INT_ATOMS = ["display", "display2", "debug", "debug2", "disc_random", "sleep_value"]
 
 
@@ -93,12 +139,19 @@ class Gen:
         if t == "atom":
             a = ATOMS[sh[1]]
             args = []
+            typ = a.typ
             for x in sh[2]:
                 if x[0] == "lit":
                     args.append(ARG_LIT[a.name])
+                elif x[0] == "edge":
+                    args.append(x[1])
+                    typ = x[2] or typ
+                elif x[0] == "bad" and a.name in ARG_LIT and self.fresh("b")[-1] in "02468":
+                    # an error value of the argument's own type: an out-of-range index
+                    args.append(f"[{ARG_LIT[a.name]}][7]")
                 else:
                     args.append(self.text(x)[0])
-            return a.text.format(*args), a.typ
+            return a.text.format(*args), typ
         if t == "wrap":
             body, typ = self.text(sh[2])
             f = self.fresh("w")
@@ -131,7 +184,7 @@ class Gen:
             if how == "default":
                 # evaluated once, when the function is declared, however often it is called
                 f = self.fresh("d")
-                if "error(" in body:
+                if "error(" in body or "][7]" in body:
                     # an error-valued argument makes the static type unknown: give the default a definite type
                     body, typ = f"if(is_error({body}), 1, 2)", "int"
                 self.decls.append(f"fn {f}(x: {typ} ?= {body}) -> int {{ 1 }}")
@@ -153,7 +206,7 @@ def program_text(shape):
 
 def model_tokens(sh, site_idx):
     t = sh[0]
-    if t == "lit":
+    if t in ("lit", "edge"):
         return ["L"]
     if t == "bad":
         return ["B"]
@@ -180,7 +233,7 @@ def model_tokens(sh, site_idx):
 
 def shape_size(sh):
     t = sh[0]
-    if t in ("lit", "bad"):
+    if t in ("lit", "bad", "edge"):
         return 1
     if t == "atom":
         return 4 + ATOMS[sh[1]].layers + sum(shape_size(x) for x in sh[2])
@@ -208,24 +261,27 @@ def oracle(shape, on, choices):
 
     def go(sh):
         t = sh[0]
-        if t in ("lit", "bad"):
+        if t in ("lit", "bad", "edge"):
             return
         if t == "atom":
             a = ATOMS[sh[1]]
             has_bad = any(x[0] == "bad" for x in sh[2])
+            has_edge = any(x[0] == "edge" for x in sh[2])
+            # may the call legitimately not reach the permission check?
+            excused = (has_bad and a.lenient in ("bad", "both")) or (has_edge and a.lenient == "both")
             if a.layers > 0:
                 # a library function written in xray: a user-level call evaluates its arguments first
                 for x in sh[2]:
                     go(x)
                 if not on[a.perm]:
-                    if has_bad and next(ch, 0) == 1:
+                    if excused and next(ch, 0) == 1:
                         return
                     raise Stop(a.perm)
                 if a.kind is not None and not has_bad:
                     may.add(a.kind)
                 return
             if not on[a.perm]:
-                if has_bad and next(ch, 0) == 1:
+                if excused and next(ch, 0) == 1:
                     for x in sh[2]:
                         go(x)
                     return
@@ -260,10 +316,11 @@ def oracle(shape, on, choices):
 
 
 def n_bad(sh):
+    """number of places where the oracle admits two outcomes"""
     if sh[0] == "bad":
         return 1
     if sh[0] == "atom":
-        return sum(n_bad(x) for x in sh[2])
+        return sum(n_bad(x) for x in sh[2]) + (1 if any(x[0] == "edge" for x in sh[2]) and ATOMS[sh[1]].lenient == "both" else 0)
     if sh[0] == "wrap":
         return sum(n_bad(x) for x in sh[1]) + n_bad(sh[2])
     if sh[0] == "thunk":
@@ -271,6 +328,18 @@ def n_bad(sh):
     if sh[0] == "seq":
         return n_bad(sh[1]) + n_bad(sh[2])
     return 0
+
+
+def has_lenient_edge(sh):
+    if sh[0] == "atom":
+        return (ATOMS[sh[1]].lenient == "both" and any(x[0] == "edge" for x in sh[2])) or any(has_lenient_edge(x) for x in sh[2])
+    if sh[0] == "wrap":
+        return any(has_lenient_edge(x) for x in sh[1]) or has_lenient_edge(sh[2])
+    if sh[0] == "thunk":
+        return has_lenient_edge(sh[1])
+    if sh[0] == "seq":
+        return has_lenient_edge(sh[1]) or has_lenient_edge(sh[2])
+    return False
 
 
 def atoms_in(sh):
@@ -331,7 +400,7 @@ def on_path(at, path, rng):
 def random_shape(rng, depth=0, top=True):
     r = rng.random()
     if depth >= 3 or r < 0.35:
-        name = rng.choice(list(ATOMS))
+        name = rng.choice([n for n in ATOMS if n not in EDGE_ONLY])
         a = ATOMS[name]
         bad = a.name in BAD_OK and rng.random() < 0.12
         sh = mk_atom(name, rng, bad)
@@ -413,6 +482,8 @@ def run(chk):
     # (1) systematic: every effectful function x every path x {only its permission off, everything on, defaults,
     #     everything off, only its permission on}
     for name, a in ATOMS.items():
+        if name in EDGE_ONLY:
+            continue
         for path in PATHS:
             if path == "default" and a.typ.startswith("Optional"):
                 continue
@@ -426,6 +497,24 @@ def run(chk):
             sh = mk_atom(name, bad=True)
             for cfg in ({p: True for p in PERM_ORDER_DOC}, {p: False for p in PERM_ORDER_DOC}, unset):
                 cases.append((sh, cfg, f"{name}/bad-arg"))
+    # (1b) edge / invalid argument values (early-return paths of the builtins) and error values at every argument position
+    allon = {p: True for p in PERM_ORDER_DOC}
+    alloff = {p: False for p in PERM_ORDER_DOC}
+    for name, pool in EDGE.items():
+        a = ATOMS[name]
+        for txt, ty in pool:
+            at = ("atom", name, [("edge", txt, ty)])
+            for path in ("direct", "wrapper", "map", "default"):
+                if path == "default" and (ty or a.typ).startswith("Optional"):
+                    continue
+                sh = on_path(at, path, rng)
+                for cfg in (dict(allon, **{a.perm: False}), allon, unset, alloff):
+                    cases.append((sh, cfg, f"{name}/edge-{path}"))
+    for name in sorted(BAD_OK):
+        for path in ("wrapper", "map", "default"):
+            sh = on_path(mk_atom(name, bad=True), path, rng)
+            for cfg in (dict(allon, **{ATOMS[name].perm: False}), allon, unset):
+                cases.append((sh, cfg, f"{name}/bad-{path}"))
     # (2) random programs x all 64 assignments (+ the unconfigured set)
     n_prog = 40 if quick else 500
     progs = []
@@ -449,7 +538,7 @@ def run(chk):
     reqs, mlines = [], []
     for sh, cfg, label in cases:
         src = program_text(sh)
-        reqs.append({"op": "run", "src": src, "get": [], "limits": cfg_limits(cfg)})
+        reqs.append({"op": "run", "src": src, "get": ["result"] if label.endswith("/edge-direct") else [], "limits": cfg_limits(cfg)})
         cfgs = "".join({True: "1", False: "0", None: "-"}[cfg[pid]] for pid in gen_ids) if table_ok else "------"
         mlines.append(f"perm run {cfgs} {shape_size(sh) * 2 + 8} " + " ".join(model_tokens(sh, site_idx)))
     impl = run_harness(reqs, per_req_timeout=20.0)
@@ -514,7 +603,9 @@ def run(chk):
         m_viol = m_res[5:] if m_res.startswith("viol:") else None
         m_cnt = {p.split("=")[0]: int(p.split("=")[1]) for p in parts[1:]} if len(parts) == 6 else None
         tie_bad = None
-        if m_cnt is None or m_res in ("stuck", "bad-op"):
+        if has_lenient_edge(sh):
+            pass      # the table does not describe argument validation before the check: nothing to compare
+        elif m_cnt is None or m_res in ("stuck", "bad-op"):
             tie_bad = f"model answered {rm!r}"
         elif m_viol != got_viol:
             tie_bad = f"model predicts {m_res}, implementation gives {inst}"
@@ -525,6 +616,34 @@ def run(chk):
         if tie_bad:
             chk.violation(f"tie:perm:{label.split('/')[0] if '/' in label else 'random'}", f"model and implementation disagree (the implementation satisfies the oracle): {tie_bad}",
                           dict(replay, model=mlines[cases.index((sh, cfg, label))], model_out=rm, impl=inst, touches=touches), no_input=True)
+    # ---- metamorphic, model-free: if a call under "everything allowed" reaches the effect (its double is touched) or returns
+    # an error that only the attempted effect can have produced (a regex compile error), the same call with the permission
+    # switched off must end in the violation naming it and leave the doubles alone
+    by_shape = {}
+    for (sh, cfg, label), req, ri in zip(cases, reqs, impl):
+        if label.endswith("/edge-direct") and _resp_fail_c11(ri) is None:
+            by_shape.setdefault(req["src"], {})["allow" if all(v is True for v in cfg.values()) else
+                                                 ("deny" if list(cfg.values()).count(False) == 1 and None not in cfg.values() else "other")] = (sh, cfg, label, req, ri)
+    for src, d in by_shape.items():
+        if "allow" not in d or "deny" not in d:
+            continue
+        sh, _, label, _, ra = d["allow"]
+        _, dcfg, _, dreq, rd = d["deny"]
+        a = ATOMS[sh[1]]
+        chk.evaluations += 1
+        chk.count("metamorphic:" + a.name)
+        res = str(ra.get("vals", {}).get("result", ""))
+        attempted = (a.kind is not None and ra["touches"][a.kind] > 0) or \
+            (a.effect_error is not None and res.startswith("(error ") and a.effect_error in res)
+        if not attempted:
+            continue
+        dv = rd["inst"]["viol"] if rd.get("inst") != "ok" else None
+        if dv != f'PermissionError("{a.perm}")' or any(rd["touches"]):
+            chk.violation(f"meta:{a.site[1]}:{a.perm}:effect-without-permission",
+                          f"`{src}` with everything allowed attempts the effect (result {res[:120]}, touches {ra['touches']}); with `{a.perm}` switched off "
+                          f"the same program must end in PermissionError({a.perm}) and leave the doubles alone, but it gives {rd.get('inst')} with touches {rd['touches']}",
+                          {"src": src, "limits": dreq["limits"], "get": [], "expected": a.perm, "got": rd.get("inst"), "allowed_run": {"result": res[:200], "touches": ra["touches"]}})
+            impl_violation = True
     for c in cases[:2] + cases[-2:]:
         chk.sample({"src": program_text(c[0]), "limits": cfg_limits(c[1])})
 
